@@ -28,14 +28,6 @@ pub proof fn lemma_size_list_elem(l: Seq<RegLan>, n: int, i: int)
     if i < n - 1 { lemma_size_list_elem(l, n - 1, i); }
 }
 
-// language of the concatenation of the terms l[i..]
-pub open spec fn cat_from(l: Seq<RegLan>, i: int, w: Seq<u32>) -> bool
-    decreases l.len() - i,
-{
-    if i >= l.len() || i < 0 { w.len() == 0 }
-    else { exists|k: int| #![trigger wit(k)] 0 <= k <= w.len() && wit(k) && lang_k(l[i].expr, w.subrange(0, k)) && cat_from(l, i + 1, w.subrange(k, w.len() as int)) }
-}
-
 pub open spec fn subset_of(r: BaseRegLan, s: BaseRegLan) -> bool {
     forall|w: Seq<u32>| #[trigger] lang_k(r, w) ==> lang_k(s, w)
 }
